@@ -3,7 +3,7 @@
     covered by the correspondence only.  "No accepted value crashes" for the drivers' tables is C06/C09's lab
     (TTL 255 on every variant incl. SACK) plus the engines' C03 theorem (no slice panic). *)
 From Coq Require Import List ZArith Bool.
-From TR Require Import Pol.Params Proofs.ParamProofs.
+From TR Require Import Pol.Params Proofs.ParamProofs Generated.GoRange Proofs.GoTieRange.
 Open Scope Z_scope.
 
 (** for ALL integer TTL bounds and ports: an accepted request is executed with exactly the stated TTL range,
@@ -33,3 +33,9 @@ Example C19_examples :
   /\ accept (mkRP PUdp 1 255 65616 MDefault) = Reject /\ accept (mkRP PIcmp 255 255 0 MDefault) = Exec KIcmp 255 255 0
   /\ accept (mkRP PUdp 1 30 0 MDefault) = Exec KUdp 1 30 33434.
 Proof. repeat split; reflexivity. Qed.
+
+(** tie kind A, regenerated on every run by tools/goextract/exprs.go: the condition under which runTracerouteOnce rejects a TTL range is exactly the model's *)
+Theorem C19_ttl_range_check_tied p : go_runOnce_ttl_range_rejected (rp_min p) (rp_max p) = negb (ttl_range_ok p).
+Proof. exact (@go_ttl_range_check p). Qed.
+Print Assumptions C19_ttl_range_check_tied.
+
